@@ -43,6 +43,7 @@ ALPHABETS = {
     "wfault": ("nop", "werr", "reset", "unreach", "badmsg"),
     "rx": ("nop", "eof", "garbage", "badcrc", "truncated", "undecodable", "subraise"),
     "subs": ("nop", "eof", "reset", "werr", "subraise", "connsubraise"),
+    "turns": ("eof", "reset", "unreach", "garbage", "truncated", "werr", "badmsg", "subraise", "connsubraise"),
 }
 
 
@@ -54,6 +55,9 @@ def instances(tier):
             lo = 1 if alph == "full" else d
             for depth in range(lo, d + 1):
                 out.append({"kind": "script", "gen": g, "depth": depth, "alphabet": alph})
+        # interleavings inside one instant: the script step is applied j loop turns after a connection was handed to the
+        # client (connect completing, subscribers being notified, held messages being flushed, read task starting)
+        out.append({"kind": "script", "gen": g, "depth": 2 if tier == "quick" else 3, "alphabet": "turns", "turns": 10})
     return out
 
 
@@ -145,10 +149,10 @@ def run(ctx, p):
             except (S.QueueOverflowError, S.NotOpenError):
                 pass
 
-        def inject():
+        def inject(once=False):
             if state["step"] >= depth:
                 return
-            for _ in range(2):
+            for _ in range(1 if once else 2):
                 if state["step"] >= depth:
                     break
                 c = rig.net.current()
@@ -182,11 +186,28 @@ def run(ctx, p):
                     c.send(bytes(good_frame))
                 elif a == "undecodable":
                     c.send(bytes(undecodable))
-            rig.loop.call_later(0.7, inject)
+            if not once:
+                rig.loop.call_later(0.7, inject)
+
+        if p.get("turns"):
+            def hop(n):
+                if n <= 0:
+                    inject(True)
+                else:
+                    rig.loop.call_soon(hop, n - 1)
+
+            def on_accept(conn):
+                if state["step"] < depth:
+                    j = ctx.choice(f"turn{state['step']}", p["turns"])
+                    state["trace"].append(f"+{j}turns")
+                    hop(j)
+
+            rig.net.on_accept = on_accept
 
         rig.spawn(rig.sock.open_socket())
         rig.loop.vt_call_at(tsend, lambda: rig.spawn(user_send(cmd_entry[1](5), S.RetryPolicy(1, 3.0))))
-        rig.loop.call_later(0.3, inject)
+        if not p.get("turns"):
+            rig.loop.call_later(0.3, inject)
         t_script_end = 0.3 + 0.7 * depth + 8.0
         rig.loop.vt_run(t_script_end)
         state["step"] = max(state["step"], depth)     # the network behaves from now on
